@@ -325,8 +325,19 @@ int main() {
                   << std::endl;
         continue;
       }
-      std::cout << "{\"root_parse_type\":" << b.rootParseType
-                << ",\"duplicate_names\":"
+      std::cout << "{\"root_parse_type\":" << b.rootParseType << ",\"parse_types\":{";
+      {
+        // what the back-end itself concluded per node: -1 = never parsed,
+        // otherwise the ParseResultType (EXPRESSION_NO_UTILITY marks a dead node)
+        bool firstNode = true;
+        for (auto& [idx, e] : b.nodes) {
+          auto pr = e->getParsedResult();
+          int t = pr.has_value() && pr.value() ? static_cast<int>(pr.value()->type) : -1;
+          std::cout << (firstNode ? "" : ",") << "\"" << idx << "\":" << t;
+          firstNode = false;
+        }
+      }
+      std::cout << "},\"duplicate_names\":"
                 << (GurobiSolver::duplicateNames(b.model) ? "true" : "false")
                 << ",\"model\":";
       GurobiSolver::dumpModel(b.model, std::cout);
